@@ -182,3 +182,33 @@ impl<T> ArcSwapOption<T> {
         self.0.swap(v)
     }
 }
+
+// A refactoring of an operator may hand a cell to a helper that is written against the real type:
+// the stand-ins dereference to the cell they wrap (accesses made that way have no scheduling point).
+impl std::ops::Deref for AtomicUsize {
+    type Target = atomic::AtomicUsize;
+    fn deref(&self) -> &Self::Target {
+        &self.0
+    }
+}
+
+impl std::ops::Deref for AtomicBool {
+    type Target = atomic::AtomicBool;
+    fn deref(&self) -> &Self::Target {
+        &self.0
+    }
+}
+
+impl<T> std::ops::Deref for ArcSwap<T> {
+    type Target = arc_swap::ArcSwap<T>;
+    fn deref(&self) -> &Self::Target {
+        &self.0
+    }
+}
+
+impl<T> std::ops::Deref for ArcSwapOption<T> {
+    type Target = arc_swap::ArcSwapOption<T>;
+    fn deref(&self) -> &Self::Target {
+        &self.0
+    }
+}
